@@ -44,13 +44,13 @@ def _alarm(signum, frame):
 
 
 def _functions_profile(store, root):
-    prefix = os.path.join(root, "construct")
+    prefixes = tuple(os.path.join(root, d) for d in ("construct", "gallery", "deprecated_gallery"))
 
     def prof(frame, event, arg):
         if event == "call":
             co = frame.f_code
             fn = co.co_filename
-            if fn.startswith(prefix):
+            if fn.startswith(prefixes):
                 store.add("%s:%s" % (os.path.relpath(fn, root), co.co_qualname if hasattr(co, "co_qualname") else co.co_name))
     return prof
 
